@@ -190,18 +190,33 @@ def outcome(thunk) -> Tuple[str, Any]:
     return 'other:' + type(e).__name__, str(e)[:160]
 
 
+BOX = 100000          # Box(v) of Callable.tla: the symbolic container pg.Dict(x=v)
+
+
+def pyval(v):
+  """Spec value -> Python argument: ints stay ints, Box(v) is a fresh pg.Dict(x=v)."""
+  return pg.Dict(x=v - BOX) if isinstance(v, int) and v >= BOX else v
+
+
 def plain(x):
-  """Symbolic containers -> plain ones, for comparison."""
+  """Symbolic containers -> plain ones for comparison; a container {x: v} is mapped back to Box(v)."""
   if isinstance(x, dict):
+    if list(x.keys()) == ['x'] and isinstance(x['x'], int):
+      return BOX + x['x']
     return {k: plain(v) for k, v in x.items()}
   if isinstance(x, (list, tuple)):
     return [plain(v) for v in x]
   return x
 
 
-def check_direct(gen: Generated, nargs: int, kw, exp_err: str, exp: Optional[dict]) -> None:
+def valued_args(pos, kw):
+  """Valued arguments as TLC printed them (sequence, function name -> value) -> (*args, **kwargs)."""
+  return [pyval(v) for v in pos], {NAME[n]: pyval(v) for n, v in sorted(_pairs(kw).items())}
+
+
+def check_direct(gen: Generated, nargs: int, kw, exp_err: str, exp: Optional[dict], kbase: int = 400) -> None:
   """The interpreter must agree with BindV: otherwise the spec is wrong (machinery failure)."""
-  pos, kws = call_args(nargs, kw, 300, 400)
+  pos, kws = call_args(nargs, kw, 300, kbase)
   kind, val = outcome(lambda: gen.fn(*pos, **kws))
   if (kind == 'ok') != (exp_err == 'ok') or (kind == 'ok' and val != exp) or kind.startswith('other'):
     raise MachineryFailure(f'BindV disagrees with the interpreter: {gen.src.splitlines()[0]} called with '
@@ -247,12 +262,14 @@ def same_signature(exp, obs) -> bool:
 # ---------------------------------------------------------------------------------------------------------------
 # table mode: one signature x one call, every way of binding it in one go
 
-BINDINGS = ('functor', 'functor-late', 'symbolize', 'symbolize-late', 'object', 'wrap')
+BINDINGS = ('functor', 'functor-late', 'symbolize', 'symbolize-late', 'object', 'wrap', 'object-partial', 'wrap-partial')
 
 
-def run_binding(gen: Generated, binding: str, nargs: int, kw) -> Tuple[str, Any, Any]:
-  """Returns (kind, result-shaped value, sym_init_args-shaped value or None)."""
-  pos, kws = call_args(nargs, kw, 300, 400)
+def run_binding(gen: Generated, binding: str, nargs: int, kw, kbase: int = 400) -> Tuple[str, Any, Any]:
+  """Returns (kind, result-shaped value, sym_init_args-shaped value or None).
+
+  kbase = 400: a keyword carries its own value; kbase = 300: the value the positional route would carry."""
+  pos, kws = call_args(nargs, kw, 300, kbase)
   sig = gen.sig
   if binding in ('functor', 'symbolize'):
     cls = gen.functor if binding == 'functor' else gen.symbolized
@@ -280,14 +297,29 @@ def run_binding(gen: Generated, binding: str, nargs: int, kw) -> Tuple[str, Any,
     if kind != 'ok':
       return kind, obj, None
     return kind, obj.bound, sym_args_of(obj, sig)
+  if binding in ('object-partial', 'wrap-partial'):
+    cls = gen.object_cls if binding == 'object-partial' else gen.wrapper
+    kind, obj = outcome(lambda: cls.partial(*pos, **kws))
+    if kind != 'ok':
+      return kind, obj, None
+    rep = sym_args_of(obj, sig)
+    return kind, rep, rep
   raise ValueError(binding)
 
 
-def run_copies(gen: Generated, binding: str, nargs: int, kw) -> Dict[str, Tuple[str, Any]]:
+def expected_partial(entry: dict) -> Tuple[str, Optional[dict]]:
+  """What cls.partial(..) must give for a table cell: (error kind, sym_init_args-shaped value or None)."""
+  if entry['perr'] != 'ok':
+    return entry['perr'], None
+  vals = {NAME[n]: (v if v != 0 else pg.MISSING_VALUE) for n, v in _pairs(entry['prep']).items()}
+  return 'ok', {'vals': vals, 'va': list(entry['pva']), 'kwx': {NAME[n]: v for n, v in _pairs(entry['pkwx']).items()}}
+
+
+def run_copies(gen: Generated, binding: str, nargs: int, kw, kbase: int = 400) -> Dict[str, Tuple[str, Any]]:
   """Clone and JSON round trip of an object bound in one go: way of copying -> (kind, result-shaped value).
 
   functor / symbolize: the copy is called; object: its sym_init_args; wrap: what the user __init__ of the copy got."""
-  pos, kws = call_args(nargs, kw, 300, 400)
+  pos, kws = call_args(nargs, kw, 300, kbase)
   if binding in ('functor', 'symbolize'):
     cls = gen.functor if binding == 'functor' else gen.symbolized
     use = lambda o: o()
@@ -364,11 +396,12 @@ class Replayer:
     sig = gen.sig
     exp_err, exp = expected_of(st['res']) if st['res']['err'] != 'none' else ('none', None)
     if name == 'Construct':
-      _, nargs, kw, o, g, fa = act
-      pos, kws = call_args(nargs, kw, 100, 200)
+      _, pvals, kvals, o, g, fa, vm = act
+      pos, kws = valued_args(pvals, kvals)
       flags = {'override_args': o, 'ignore_extra_args': g} if fa == 'init' else {}
       kind, val = outcome(lambda: cls(*pos, **kws, **flags))
       self.hit(f'Construct:{exp_err}')
+      self.hit(f'Construct-mode:{vm}')
       if exp_err == 'ok':
         if kind != 'ok':
           raise Divergence('construct', 'ok', f'{kind}: {val}', k)
@@ -379,14 +412,25 @@ class Replayer:
           raise Divergence('construct-error-kind', f'TypeError ({exp_err})', kind, k)
         return
     elif name == 'SetAttr':
-      setattr(self.f, NAME[act[1]], 500 + act[1])
+      setattr(self.f, NAME[act[1]], pyval(act[2]))
       self.hit('SetAttr')
     elif name == 'DelAttr':
       delattr(self.f, NAME[act[1]])
       self.hit('DelAttr')
     elif name == 'Rebind':
-      self.f.rebind({NAME[m]: 600 + m for m in sorted(act[1])})
+      updates = {}
+      kinds = []
+      for kind_, n, v in act[1]:                 # in the order the spec lists them
+        if kind_ == 'in':
+          updates[NAME[n] + '.x'] = v - BOX       # nested path inside the container bound to n
+        else:
+          updates[NAME[n]] = pyval(v)
+        kinds.append(kind_)
+      self.f.rebind(updates)
       self.hit('Rebind')
+      self.hit('Rebind-entries:%d' % len(kinds))
+      if 'in' in kinds and kinds.index('in') < len(kinds) - 1:
+        self.hit('Rebind:nested-before-top')
     elif name == 'Clone':
       self.nclone += 1
       self.f = self.f.clone(deep=bool(self.nclone % 2))
@@ -400,18 +444,19 @@ class Replayer:
       self.hit('Drop')
       return
     elif name == 'Call':
-      _, nargs, kw, ov, ig = act
-      pos, kws = call_args(nargs, kw, 300, 400)
+      _, pvals, kvals, ov, ig, cm = act
+      pos, kws = valued_args(pvals, kvals)
       flags = {'override_args': ov, 'ignore_extra_args': ig} if st['flagAt'] == 'call' else {}
       kind, val = outcome(lambda: self.f(*pos, **kws, **flags))
       self.hit(f'Call:{exp_err}')
+      self.hit(f'Call-mode:{cm}')
       if exp_err == 'ok':
         if kind != 'ok':
           raise Divergence('call', 'ok', f'{kind}: {val}', k)
-        if val != exp:
-          raise Divergence('call-result', exp, val, k)
+        if plain(val) != exp:
+          raise Divergence('call-result', exp, plain(val), k)
       elif kind != 'TypeError':
-        raise Divergence('call-error-kind', f'TypeError ({exp_err})', kind if kind != 'ok' else f'ok: {val}', k)
+        raise Divergence('call-error-kind', f'TypeError ({exp_err})', kind if kind != 'ok' else f'ok: {plain(val)}', k)
     else:
       raise MachineryFailure(f'unknown action {name}')
     # after every step on a live functor: what it reports must be what the spec says is bound
